@@ -5,7 +5,8 @@ import WuffsVerif.Model.Png.Spec
 /-! Line driver for C19 (lib/uncompng).  Stateful: one `Encoder` lives across ops until `reset`.
 
   reset                                          -> ok
-  encode W H STRIDE DEPTH CT PIX [failat:K]      -> STATUS N ITEM*   (N Write calls, one ITEM each)
+  encode W H STRIDE DEPTH CT PIX [len:L] [failat:K] -> STATUS N ITEM*   (N Write calls, one ITEM each)
+        PIX gives the cap(pix) bytes of the backing array; len:L is len(pix) when it is smaller
         STATUS = ok | invalid-argument | unsupported-size | write-error | panic   (panic prints no items)
         PIX    = hex | - | seeded:SEED:LEN | fill:XX:LEN | adlerstress:LEN:C
   specdecode (last | hex)                        -> none | some W H DEPTH CT ITEM(pixels)
@@ -92,22 +93,26 @@ def statusWord : Uncomp.Status → String
   | .writeError => "write-error"
   | .panic => "panic"
 
-def parseFail (l : List String) : Option (Option Nat) :=
-  match l with
-  | [] => some none
-  | [f] =>
+/-- the optional trailing tokens `len:L` and `failat:K` (in this order) -/
+def parseFail (l : List String) : Option (Option Nat × Option Nat) :=
+  let tok (f : String) : Option (String × Nat) :=
     match f.splitOn ":" with
-    | ["failat", k] => k.toNat?.map some
+    | [k, v] => v.toNat?.map (fun n => (k, n))
     | _ => none
+  match l.map tok with
+  | [] => some (none, none)
+  | [some ("len", n)] => some (some n, none)
+  | [some ("failat", k)] => some (none, some k)
+  | [some ("len", n), some ("failat", k)] => some (some n, some k)
   | _ => none
 
 def doEncode (st : St) (w h stride depth ct pix : String) (rest : List String) : St × String :=
   match w.toInt?, h.toInt?, stride.toInt?, depth.toNat?, ct.toNat?, parsePix pix, parseFail rest with
-  | some w, some h, some stride, some depth, some ct, some pix, some failAt =>
+  | some w, some h, some stride, some depth, some ct, some pix, some (plen, failAt) =>
     if depth > 255 ∨ ct > 255 then (st, "bad-op") else
     let enc := st.enc
     let st := { st with enc := Uncomp.Enc.new }   -- drop the reference so that the buffer is updated in place
-    let r := Uncomp.encode enc (Uncomp.Writer.new failAt) pix w h stride (UInt8.ofNat depth) (UInt8.ofNat ct)
+    let r := Uncomp.encode enc (Uncomp.Writer.new failAt) pix (plen.getD pix.size) w h stride (UInt8.ofNat depth) (UInt8.ofNat ct)
     match r.status with
     | .panic => ({ st with enc := { r.e with oob := false }, last := #[] }, "panic")
     | s =>
